@@ -321,6 +321,29 @@ def h_findtm(h, k):
     h.prove("template T- scales as lambda", None, conc=lambda: abs(b - float(q) * a) <= 1e-9 * abs(b))
 
 
+def h_minimiser_bounds(h, k):
+    """wall-parameter bounds handed to the action minimiser: widths ~ 1/lambda, offsets invariant"""
+    L, q = lam(h, k)
+    from props import c09 as C09
+    got = []
+    for scale in (1.0, float(q)):
+        eom, grid, dV, Vv, Vends, msqd, D00, bres = C09.make_eom(h, 3, 2, 0, False)
+        eom.thermo.Tnucl = 2.0 * scale
+        wp = WallParams(widths=np.array([2.0, 3.1]) / scale, offsets=np.array([0.0, 0.4]))
+        lo = Fields.castFromNumpy(np.array([[1.0, 0.2]]) * scale)
+        hi = Fields.castFromNumpy(np.array([[0.3, 0.8]]) * scale)
+        eom._intermediatePressureResults(wp, lo, hi, -0.6, 0.4, -0.45, bres, 1.1 * scale, 1.0 * scale,
+                                         np.linspace(1.0, 1.1, 2) * scale, -0.4 * np.ones(2), 1.0)
+        got.append(eom._minimize_calls[0])
+    (lb1, ub1), (lb2, ub2) = got[0]["bounds"], got[1]["bounds"]
+    lb1, ub1, lb2, ub2 = (np.asarray(x, dtype=float) for x in (lb1, ub1, lb2, ub2))
+    fq = float(q)
+    h.prove("width bounds scale as 1/lambda", Cond(b=bool(np.allclose(lb2[:2] * fq, lb1[:2]) and np.allclose(ub2[:2] * fq, ub1[:2]))))
+    h.prove("offset bounds are dimensionless", Cond(b=bool(np.allclose(lb2[2:], lb1[2:]) and np.allclose(ub2[2:], ub1[2:]))))
+    h.prove("starting point of the minimiser scales like the wall", Cond(
+        b=bool(np.allclose(np.asarray(got[1]["x0"], dtype=float)[:2] * fq, np.asarray(got[0]["x0"], dtype=float)[:2]))))
+
+
 def h_manager(h, k):
     L, q = lam(h, k)
     import WallGo.manager as MG
@@ -378,6 +401,8 @@ HARNESSES = [
                encodes=[FE.FreeEnergy.tracePhase], random_validation=0, concrete_alarms=False, feas_timeout_ms=300),
     HarnessDef("template-findTm-scaling", h_findtm, [dict(k=k) for k in KQ], [dict(k=k) for k in KT], max_paths=4, timeout_s=30,
                encodes=[HT.HydrodynamicsTemplateModel._findTm], random_validation=6),
+    HarnessDef("minimiser-bounds-scaling", h_minimiser_bounds, [dict(k=k) for k in KQ], [dict(k=k) for k in KT], max_paths=6,
+               timeout_s=30, encodes=[EOMM.EOM._intermediatePressureResults], random_validation=1),
     HarnessDef("manager-lengths", h_manager, [dict(k=k) for k in KQ], [dict(k=k) for k in KT], max_paths=40, timeout_s=60,
                encodes=[], random_validation=1, feas_timeout_ms=200),
 ]
